@@ -229,6 +229,8 @@ class Script:
                                                         ext_c, ssl3=(v == "ssl3"))))]
         sh_msg = server_hello(self.sr, ver, code, sid, ext_s)
         ccs = rec(20, ver, b"\x01")
+        if v == "tls13" and not sh.get("ccs13", True):
+            ccs = b""                              # no middlebox-compatibility ChangeCipherSpec (RFC 8446 D.4 is optional)
         if v == "tls13":
             f = rec(22, ver, sh_msg) + ccs
             f += self._group(1, [hs(8, b"\0\0"), hs(11, rng.randbytes(80)), hs(15, rng.randbytes(70)),
